@@ -13,7 +13,8 @@
        taken from a separate defer/recover of the harness;
      - every stack view of the error, each read through its own API;
      - what runtime.FuncForPC / Func.FileLine say about the error's pcs (the
-       second symboliser, used by DebugStack before F8's fix).
+       second symboliser; DebugStack used it before F8's fix, the model reads
+       from Gen/Chain.v which one DebugStack uses now).
    Frames are interned per case: [c_tab] lists the distinct frames, everything
    else refers to them by index. *)
 From Errdef Require Import Base.Str Model.Core Model.Stack.
@@ -160,10 +161,9 @@ Definition corr_names (c : case) : bool :=
 
 Definition corr (c : case) : bool := if in_domain c then corr_strict c else corr_names c.
 
-(* hypothesis under which DebugStack can agree at all: on the captured pcs the
-   runtime's two symbolisers coincide (F8 is exactly its failure) *)
-Definition sym2_agrees (c : case) : bool :=
-  list_eqb oframe_eqb (map (option_map (fr c)) (o_sym2 c)) (map Some (frs c (o_frames c))).
+(* DebugStack leaves out frames whose function name is empty (unknown pcs); the
+   frames of Go code the reference capture sees all have names *)
+Definition user_named (c : case) : bool := forallb named (user c).
 
 Definition bad_ok (cs : list case) : list N := bad_idx ok cs.
 Definition bad_corr (cs : list case) : list N := bad_idx corr cs.
